@@ -14,7 +14,7 @@ variable {World : Type}
 def wordsOf (n : Nat) : Nat := (n + 31) / 32
 
 /-- word-sized operations `execute` performs, read off vm/instructions.go: the copy instructions build the padded source
-    (`getData`: `make` + `copy`) and copy it into memory; RETURNDATACOPY and MCOPY copy once; EXP squares and multiplies once
+    (`getData`: `make` + `copy`) and copy it into memory; RETURNDATACOPY and MCOPY copy once; KECCAK256 absorbs the hashed range word by word; EXP squares and multiplies once
     per exponent bit (`uint256.Exp`), 8 bits per counted exponent byte; CALLDATALOAD and PUSH build one padded word; everything
     else touches a constant number of words.  The journal instructions have their own work counter (M2, C20's journal part). -/
 def execWork (i : Instr) (st : List Word) : Nat :=
@@ -24,6 +24,7 @@ def execWork (i : Instr) (st : List Word) : Nat :=
   | .returndatacopy, _ :: _ :: len :: _ => wordsOf (len % U64)
   | .mcopy, _ :: _ :: len :: _ => wordsOf (len % U64)
   | .exp, _ :: e :: _ => 16 * byteLen 32 e + 1
+  | .keccak, _ :: size :: _ => wordsOf (size % U64) + 1
   | .calldataload, _ => 2
   | .push _, _ => 2
   | .journal _, _ => 0
@@ -147,6 +148,7 @@ def rowWork (row : Row) (i : Instr) : Bool :=
   | .returndatacopy => row.dyn == "memoryCopierGas"
   | .mcopy => row.dyn == "memoryCopierGas"
   | .exp => row.dyn == "gasExpFrontier" || row.dyn == "gasExpEIP158"
+  | .keccak => row.dyn == "gasKeccak256"
   | _ => true
 
 def TableWork (env : IEnv World) : Prop :=
@@ -158,22 +160,19 @@ theorem wordsOf_le_toWordSize {n : Nat} (h : n < U64) : wordsOf n ≤ toWordSize
   unfold wordsOf toWordSize
   split <;> omega
 
-theorem execWork_le_two (i : Instr) (st : List Word)
-    (hc : i ≠ .calldatacopy ∧ i ≠ .codecopy ∧ i ≠ .returndatacopy ∧ i ≠ .mcopy ∧ i ≠ .exp) : execWork i st ≤ 2 := by
-  obtain ⟨h1, h2, h3, h4, h5⟩ := hc
-  cases i <;> simp_all [execWork] <;> (repeat' split) <;> omega
+/-- instructions whose work depends on an operand -/
+def varWork : Instr → Bool
+  | .calldatacopy | .codecopy | .returndatacopy | .mcopy | .exp | .keccak => true
+  | _ => false
 
-theorem execWork_le_one (i : Instr) (st : List Word)
-    (hc : i ≠ .calldatacopy ∧ i ≠ .codecopy ∧ i ≠ .returndatacopy ∧ i ≠ .mcopy ∧ i ≠ .exp ∧ i ≠ .calldataload ∧ ∀ n, i ≠ .push n) :
-    execWork i st ≤ 1 := by
-  obtain ⟨h1, h2, h3, h4, h5, h6, h7⟩ := hc
-  cases i <;> simp_all [execWork] <;> (repeat' split) <;> omega
+theorem execWork_le_two (i : Instr) (st : List Word) (hc : varWork i = false) : execWork i st ≤ 2 := by
+  cases i <;> simp_all [execWork, varWork] <;> (repeat' split) <;> omega
 
 /-- the gas functions that do not charge for memory leave `lastGasCost` alone -/
-theorem dynGas_other_last {name : String} (h1 : name ≠ "pureMemoryGascost") (h2 : name ≠ "memoryCopierGas")
+theorem dynGas_other_last {name : String} (h1 : name ≠ "pureMemoryGascost") (h2 : name ≠ "memoryCopierGas") (h3 : name ≠ "gasKeccak256")
     {st : List Word} {len last m c l : Nat} (h : dynGasOf name st len last m = .cost c l) : l = last := by
   unfold dynGasOf at h
-  rw [if_neg h1, if_neg h2] at h
+  rw [if_neg h1, if_neg h2, if_neg h3] at h
   (repeat' split at h) <;> first | cases h | skip
   all_goals rfl
 
@@ -200,8 +199,7 @@ theorem pre_work {env : IEnv World} (hS : TableSafe env) (hP : TablePays env) (h
     subst he
     refine ⟨⟨hlen32, hlast⟩, ?_⟩
     simp only [Nat.sub_self, Nat.zero_div, Nat.zero_add]
-    have hnc : i ≠ .calldatacopy ∧ i ≠ .codecopy ∧ i ≠ .returndatacopy ∧ i ≠ .mcopy ∧ i ≠ .exp := by
-      refine ⟨?_, ?_, ?_, ?_, ?_⟩ <;> (intro hi; subst hi; simp [rowWork, hdash] at hw)
+    have hnc : varWork i = false := by cases i <;> first | rfl | (simp [rowWork, hdash] at hw)
     have h2w := execWork_le_two i s.stack hnc
     by_cases hcg : 1 ≤ row.cgas
     · omega
@@ -228,8 +226,7 @@ theorem pre_work {env : IEnv World} (hS : TableSafe env) (hP : TablePays env) (h
         subst hwm
         obtain ⟨hfee, hl'⟩ := memoryGasCost_work hlen32 hlast (by omega) hg
         refine ⟨⟨by rw [hmlen]; omega, by rw [hlastl, ← hll, hl', hmlen]⟩, ?_⟩
-        have hnc : i ≠ .calldatacopy ∧ i ≠ .codecopy ∧ i ≠ .returndatacopy ∧ i ≠ .mcopy ∧ i ≠ .exp := by
-          refine ⟨?_, ?_, ?_, ?_, ?_⟩ <;> (intro hi; subst hi; simp [rowWork, hpure] at hw)
+        have hnc : varWork i = false := by cases i <;> first | rfl | (simp [rowWork, hpure] at hw)
         have h2w := execWork_le_two i s1.stack hnc
         rw [hmlen]
         by_cases hcg : 1 ≤ row.cgas
@@ -271,13 +268,14 @@ theorem pre_work {env : IEnv World} (hS : TableSafe env) (hP : TablePays env) (h
                 have hlm : len % U64 = len := Nat.mod_eq_of_lt (by omega)
                 -- whatever the instruction, it copies at most twice the words the gas function charged for
                 have hne : i ≠ .exp := by intro hi; subst hi; simp [rowWork, hcop] at hw
+                have hnk : i ≠ .keccak := by intro hi; subst hi; simp [rowWork, hcop] at hw
                 have hexec : execWork i s1.stack ≤ 2 * toWordSize len + 2 := by
                   rw [hstk]
                   obtain ⟨x, y, z, r, hst⟩ := ge3 (l := s.stack) (by simp [dynNeed, hcop] at hdn; omega)
                   rw [hst] at hb
                   simp only [back, List.getElem?_cons_succ, List.getElem?_cons_zero, Option.some.injEq] at hb
                   subst hb
-                  cases i <;> simp only [execWork, hst, hlm] <;> first | omega | exact absurd rfl hne
+                  cases i <;> simp only [execWork, hst, hlm] <;> first | omega | exact absurd rfl hne | exact absurd rfl hnk
                 rw [hmlen]
                 by_cases hcg : 1 ≤ row.cgas
                 · omega
@@ -286,38 +284,89 @@ theorem pre_work {env : IEnv World} (hS : TableSafe env) (hP : TablePays env) (h
                     · exact absurd hc hcg
                     · cases i <;> simp [hcop] at hi <;> simp [execWork]
                   omega
-      · -- a gas function that does not charge for memory: the row has no memory-size function, nothing is allocated
-        have hname : memName i = "-" := by
-          rcases hdyn with (h | h) | h
-          · exact h
-          · exact absurd h hpure
-          · exact absurd h hcop
-        have hm : m = 0 := hm0 (by rw [hmem, hname])
-        have hl := dynGas_other_last hpure hcop hcost
-        have hmeq : s1.mem = s.mem := by rw [hmemeq, hm]; simp
-        refine ⟨⟨by rw [hmeq]; exact hlen32, by rw [hlastl, hl, hmeq]; exact hlast⟩, ?_⟩
-        rw [hmeq]
-        simp only [Nat.sub_self, Nat.zero_div, Nat.zero_add]
-        by_cases hexp : i = .exp
-        · subst hexp
-          simp only [rowWork, Bool.or_eq_true, beq_iff_eq] at hw
-          rw [hstk]
-          obtain ⟨b, e, r, hst⟩ := ge2 (l := s.stack) (by simp [Instr.pops] at hpops; omega)
-          have hc10 : 10 * byteLen 32 e + 10 ≤ c := by
-            rcases hw with hw | hw <;> rw [hw] at hcost <;> simp [dynGasOf, back, hst] at hcost <;> omega
-          simp only [execWork, hst]
-          omega
-        · have hnc : i ≠ .calldatacopy ∧ i ≠ .codecopy ∧ i ≠ .returndatacopy ∧ i ≠ .mcopy ∧ i ≠ .exp := by
-            refine ⟨?_, ?_, ?_, ?_, hexp⟩ <;> (intro hi; subst hi; simp [rowWork] at hw; exact hcop hw)
-          have h2w := execWork_le_two i s1.stack hnc
-          by_cases hcg : 1 ≤ row.cgas
-          · omega
-          · rcases hpay with hc | hi
-            · exact absurd hc hcg
-            · have : execWork i s1.stack ≤ 1 ∨ 1 ≤ c := by
-                cases i <;> simp at hi <;> (first | (left; simp [execWork]) | skip)
-                · exact absurd rfl hexp
-              omega
+      · by_cases hkec : row.dyn = "gasKeccak256"
+        · -- memory fee plus 6 per word hashed
+          rw [hkec] at hcost
+          simp only [dynGasOf] at hcost
+          rw [if_pos trivial] at hcost
+          cases hb : back s.stack 1 with
+          | none => rw [hb] at hcost; cases hcost
+          | some len =>
+            rw [hb] at hcost; dsimp only at hcost
+            cases hmg : memoryGasCost s.mem.length s.last m with
+            | none => rw [hmg] at hcost; cases hcost
+            | some gl2 =>
+              obtain ⟨g2, l2⟩ := gl2
+              rw [hmg] at hcost; dsimp only at hcost
+              by_cases hlU : len ≥ U64
+              · rw [if_pos hlU] at hcost; cases hcost
+              · rw [if_neg hlU] at hcost
+                by_cases ho1 : toWordSize len * 6 ≥ U64
+                · rw [if_pos ho1] at hcost; cases hcost
+                · rw [if_neg ho1] at hcost
+                  by_cases ho2 : g2 + toWordSize len * 6 ≥ U64
+                  · rw [if_pos ho2] at hcost; cases hcost
+                  · rw [if_neg ho2] at hcost
+                    injection hcost with hcc hll
+                    subst hwm
+                    obtain ⟨hfee, hl'⟩ := memoryGasCost_work hlen32 hlast (by omega) hmg
+                    refine ⟨⟨by rw [hmlen]; omega, by rw [hlastl, ← hll, hl', hmlen]⟩, ?_⟩
+                    have hwl := wordsOf_le_toWordSize (n := len) (by omega)
+                    have hlm : len % U64 = len := Nat.mod_eq_of_lt (by omega)
+                    have hne : i ≠ .exp := by intro hi; subst hi; simp [rowWork, hkec] at hw
+                    have hn1 : i ≠ .calldatacopy := by intro hi; subst hi; simp [rowWork, hkec] at hw
+                    have hn2 : i ≠ .codecopy := by intro hi; subst hi; simp [rowWork, hkec] at hw
+                    have hn3 : i ≠ .returndatacopy := by intro hi; subst hi; simp [rowWork, hkec] at hw
+                    have hn4 : i ≠ .mcopy := by intro hi; subst hi; simp [rowWork, hkec] at hw
+                    have hexec : execWork i s1.stack ≤ toWordSize len + 2 := by
+                      rw [hstk]
+                      obtain ⟨x, y, r, hst⟩ := ge2 (l := s.stack) (by simp [dynNeed, hkec] at hdn; omega)
+                      rw [hst] at hb
+                      simp only [back, List.getElem?_cons_succ, List.getElem?_cons_zero, Option.some.injEq] at hb
+                      subst hb
+                      cases i <;> simp only [execWork, hst, hlm] <;>
+                        first | omega | exact absurd rfl hne | exact absurd rfl hn1 | exact absurd rfl hn2 | exact absurd rfl hn3 | exact absurd rfl hn4 | ((repeat' split) <;> omega)
+                    rw [hmlen]
+                    by_cases hcg : 1 ≤ row.cgas
+                    · omega
+                    · have : execWork i s1.stack ≤ 1 := by
+                        rcases hpay with hc | hi
+                        · exact absurd hc hcg
+                        · cases i <;> simp [hkec] at hi <;> simp [execWork]
+                      omega
+        · -- a gas function that does not charge for memory: the row has no memory-size function, nothing is allocated
+          have hname : memName i = "-" := by
+            rcases hdyn with ((h | h) | h) | h
+            · exact h
+            · exact absurd h hpure
+            · exact absurd h hcop
+            · exact absurd h hkec
+          have hm : m = 0 := hm0 (by rw [hmem, hname])
+          have hl := dynGas_other_last hpure hcop hkec hcost
+          have hmeq : s1.mem = s.mem := by rw [hmemeq, hm]; simp
+          refine ⟨⟨by rw [hmeq]; exact hlen32, by rw [hlastl, hl, hmeq]; exact hlast⟩, ?_⟩
+          rw [hmeq]
+          simp only [Nat.sub_self, Nat.zero_div, Nat.zero_add]
+          by_cases hexp : i = .exp
+          · subst hexp
+            simp only [rowWork, Bool.or_eq_true, beq_iff_eq] at hw
+            rw [hstk]
+            obtain ⟨b, e, r, hst⟩ := ge2 (l := s.stack) (by simp [Instr.pops] at hpops; omega)
+            have hc10 : 10 * byteLen 32 e + 10 ≤ c := by
+              rcases hw with hw | hw <;> rw [hw] at hcost <;> simp [dynGasOf, back, hst] at hcost <;> omega
+            simp only [execWork, hst]
+            omega
+          · have hnc : varWork i = false := by
+              cases i <;> first | rfl | exact absurd rfl hexp | (simp [rowWork] at hw; first | exact absurd hw hcop | exact absurd hw hkec)
+            have h2w := execWork_le_two i s1.stack hnc
+            by_cases hcg : 1 ≤ row.cgas
+            · omega
+            · rcases hpay with hc | hi
+              · exact absurd hc hcg
+              · have : execWork i s1.stack ≤ 1 ∨ 1 ≤ c := by
+                  cases i <;> simp at hi <;> (first | (left; simp [execWork]) | skip)
+                  · exact absurd rfl hexp
+                omega
 
 theorem exec_next_last {env : IEnv World} {i : Instr} {s s' : IState World} (h : exec env i s = .next s') :
     s'.last = s.last := by
